@@ -25,6 +25,9 @@ use std::path::PathBuf;
 use std::process::{Command, Stdio};
 use std::time::{Duration, Instant};
 
+/// address-space limit of every process that executes library code (16 workers x 3 GiB stays below the machine's memory)
+const WORKER_RLIMIT_AS: u64 = 3 << 30;
+
 fn engines() -> Vec<Box<dyn Engine>> {
     vec![Box::new(engine_io::IoEngine), Box::new(engine_blob::BlobEngine), Box::new(engine_cabi::CabiEngine), Box::new(engine_sched::SchedEngine), Box::new(engine_upgrade::UpgradeEngine), Box::new(engine_buggify::BuggifyEngine)]
 }
@@ -75,12 +78,12 @@ fn main() {
             let seed: u64 = args[4].parse().expect("seed");
             let trace = args[5] == "trace";
             let engine = engine_for(id).expect("engine");
-            util::set_rlimit_as(12 << 30);
+            util::set_rlimit_as(WORKER_RLIMIT_AS);
             supervisor::worker_main(engine.as_ref(), tier, seed, trace)
         }
         "aux" => {
             let engine = engine_for(&args[2]).expect("engine");
-            util::set_rlimit_as(12 << 30);
+            util::set_rlimit_as(WORKER_RLIMIT_AS);
             engine.aux(&args[3..])
         }
         "selftest-lz77" => {
@@ -127,7 +130,7 @@ fn load_doc(path: &str) -> Result<json::J, String> {
 /// executes the plan of a replay document in this very process (may die or hang: the parent watches)
 fn replay_exec(args: &[String]) -> i32 {
     util::install_quiet_panic_hook();
-    util::set_rlimit_as(12 << 30);
+    util::set_rlimit_as(WORKER_RLIMIT_AS);
     let doc = match load_doc(&args[2]) {
         Ok(d) => d,
         Err(e) => {
